@@ -130,7 +130,7 @@ def stepH (s : S) (ws : List String) (h : Hist Float) : S × String :=
     | none => (s, "bad-op")
   | "hexpfit" :: _ => (s, fitOut (expFitCompleteBinned h))
   | "hgamfit" :: _ => (s, "unmodelled")
-  | "hweifit" :: _ => (s, "unmodelled")
+  | "hweifit" :: _ => (s, fitOut (weiFitCompleteBinned h))
   | "hsxpfit" :: _ => (s, "unmodelled")
   | _ => (s, "bad-op")
 
@@ -155,7 +155,7 @@ def step (s : S) (line : String) : S × String :=
     if c.size < 1 then (s, "bad-op") else
     match (arg? ws "kind").getD "" with
     | "lognormal" => (s, fitOut (lognormalFitCountHistogram c))
-    | "gamma" => (s, "unmodelled")
+    | "gamma" => (s, fitOut (gamFitCountHistogram c ((argF ws "a").getD 0.0)))
     | _ => (s, "bad-op")
   | "fit" :: _ =>
     let xs := s.xs
@@ -165,7 +165,9 @@ def step (s : S) (line : String) : S × String :=
     let z := (argInt? ws "z").getD 0
     (s, match runFit kind xs a b z with
         | some r => fitOut r
-        | none => match runFitCG kind xs a with | some r => fitOut r | none => "unmodelled")
+        | none => match runFitCG kind xs a with
+          | some r => fitOut r
+          | none => if kind == "gamma" then fitOut (gamFitComplete xs a) else "unmodelled")
   | op :: _ =>
     if op.startsWith "h" then
       match s.h with
